@@ -144,6 +144,173 @@ theorem unfill_total (cw : Char → Nat) (t : Text) : ∃ u, unfill cw t = some 
   rw [hr]
   exact ⟨_, rfl⟩
 
+/-! ### arbitrary input: no inner line break, the reported line ending -/
+
+theorem nelGo_noLF : ∀ (ps : List Text), (∀ p ∈ ps, LF ∉ p) → ∀ x ∈ nelGo ps, LF ∉ x.1
+  | [], _, x, hx => by simp [nelGo] at hx
+  | [last], h, x, hx => by
+    simp only [nelGo] at hx
+    split at hx
+    · simp at hx
+    · simp only [List.mem_singleton] at hx; subst hx; exact h last (by simp)
+  | p :: q :: rest, h, x, hx => by
+    simp only [nelGo, List.mem_append] at hx
+    rcases hx with hx | hx
+    · split at hx
+      · simp at hx
+      · split at hx
+        · simp only [List.mem_singleton] at hx; subst hx
+          intro hm
+          exact h p (by simp) ((List.dropLast_sublist p).subset hm)
+        · simp only [List.mem_singleton] at hx; subst hx; exact h p (by simp)
+    · exact nelGo_noLF (q :: rest) (fun y hy => h y (by simp [hy])) x hx
+
+theorem sliceFrom?_noLF (line r : Text) (k : Nat) (h : sliceFrom? line k = some r) (hl : LF ∉ line) : LF ∉ r := by
+  unfold sliceFrom? at h
+  split at h
+  · next a b hab =>
+    simp only [Option.some.injEq] at h; subst h
+    have := (splitBytes?_some hab).1
+    intro hm; exact hl (by rw [this]; simp [hm])
+  · simp at h
+
+theorem unfillJoin_noLF (ini sub : Text) : ∀ (nel : List (Text × Option LineEnding)) (idx : Nat) (acc : Text)
+    (det : Option LineEnding) (r : Text) (d : Option LineEnding),
+    (∀ x ∈ nel, LF ∉ x.1) → LF ∉ acc → unfillJoin ini sub nel idx acc det = some (r, d) → LF ∉ r := by
+  intro nel
+  induction nel with
+  | nil =>
+    intro idx acc det r d _ ha h
+    simp only [unfillJoin, Option.some.injEq, Prod.mk.injEq] at h
+    rw [← h.1]; exact ha
+  | cons x rest ih =>
+    intro idx acc det r d hn ha h
+    obtain ⟨line, ending⟩ := x
+    simp only [unfillJoin] at h
+    split at h
+    · simp at h
+    · next p hp =>
+      refine ih (idx + 1) (acc ++ p) _ r d (fun y hy => hn y (by simp [hy])) ?_ h
+      have hl : LF ∉ line := hn (line, ending) (by simp)
+      intro hm
+      rcases List.mem_append.mp hm with hm | hm
+      · exact ha hm
+      · split at hp
+        · exact sliceFrom?_noLF line p _ hp hl hm
+        · cases hs : sliceFrom? line (blen sub) with
+          | none => rw [hs] at hp; simp at hp
+          | some q =>
+            rw [hs] at hp
+            simp only [Option.map_some, Option.some.injEq] at hp
+            rw [← hp] at hm
+            rcases List.mem_cons.mp hm with e | e
+            · exact absurd e (by decide)
+            · exact sliceFrom?_noLF line q _ hs hl e
+
+/-- **arbitrary input: the returned text contains no line feed other than in a final line
+    ending** -/
+-- @audit TW.C15.unfill_no_inner_break
+theorem unfill_no_inner_break (cw : Char → Nat) (t : Text) (u : Unfilled) (h : unfill cw t = some u) :
+    ∃ body, LF ∉ body ∧ (u.text = body ∨ u.text = body ++ u.lineEnding.str) := by
+  unfold unfill at h
+  simp only at h
+  split at h
+  · simp at h
+  · next body det hj =>
+    have hb : LF ∉ body := unfillJoin_noLF _ _ (nonEmptyLines t) 0 [] none body det
+      (nelGo_noLF _ (splitLF_no_LF t)) (by simp) hj
+    simp only [Option.some.injEq] at h
+    subst h
+    refine ⟨body, hb, ?_⟩
+    cases det with
+    | none => left; rfl
+    | some le =>
+      dsimp only
+      split
+      · right; rfl
+      · left; rfl
+
+/-- the line-ending detection is a left fold of `detStep` over the endings -/
+theorem unfillJoin_det (ini sub : Text) : ∀ (nel : List (Text × Option LineEnding)) (idx : Nat) (acc : Text)
+    (det : Option LineEnding) (r : Text) (d : Option LineEnding),
+    unfillJoin ini sub nel idx acc det = some (r, d) → d = (nel.map (·.2)).foldl detStep det := by
+  intro nel
+  induction nel with
+  | nil => intro idx acc det r d h; simp only [unfillJoin, Option.some.injEq, Prod.mk.injEq] at h; simp [h.2]
+  | cons x rest ih =>
+    intro idx acc det r d h
+    simp only [unfillJoin] at h
+    split at h
+    · simp at h
+    · simpa using ih _ _ _ r d h
+
+theorem detFold_lf (es : List (Option LineEnding)) : es.foldl detStep (some .lf) = some .lf := by
+  induction es with
+  | nil => rfl
+  | cons e es ih => cases e <;> simpa [detStep] using ih
+theorem detFold_crlf (es : List (Option LineEnding)) :
+    es.foldl detStep (some .crlf) = if some LineEnding.lf ∈ es then some .lf else some .crlf := by
+  induction es with
+  | nil => rfl
+  | cons e es ih =>
+    cases e with
+    | none => simpa [detStep] using ih
+    | some le =>
+      cases le with
+      | lf => simp [detStep, detFold_lf]
+      | crlf => simpa [detStep] using ih
+theorem detFold_none (es : List (Option LineEnding)) :
+    es.foldl detStep none = some .crlf ↔ (∃ e ∈ es, e ≠ none) ∧ some LineEnding.lf ∉ es := by
+  induction es with
+  | nil => simp
+  | cons e es ih =>
+    cases e with
+    | none => simpa [detStep] using ih
+    | some le =>
+      cases le with
+      | lf => simp [detStep, detFold_lf]
+      | crlf =>
+        simp only [List.foldl_cons, detStep, detFold_crlf]
+        constructor
+        · intro h
+          split at h
+          · cases h
+          · next hn => exact ⟨⟨some LineEnding.crlf, by simp, by simp⟩, by simpa using hn⟩
+        · intro h
+          have : some LineEnding.lf ∉ es := fun hm => h.2 (by simp [hm])
+          simp [this]
+
+/-- **arbitrary input: the reported line ending is CRLF exactly when the text's non-empty lines
+    have at least one line ending and none of them is a bare LF** (for input without empty
+    lines these are all the line endings of the text) -/
+-- @audit TW.C15.unfill_ending
+theorem unfill_ending (cw : Char → Nat) (t : Text) (u : Unfilled) (h : unfill cw t = some u) :
+    u.lineEnding = .crlf ↔
+      (∃ x ∈ nonEmptyLines t, x.2 ≠ none) ∧ ∀ x ∈ nonEmptyLines t, x.2 ≠ some .lf := by
+  unfold unfill at h
+  simp only at h
+  split at h
+  · simp at h
+  · next body det hj =>
+    have hd := unfillJoin_det _ _ _ _ _ _ _ _ hj
+    simp only [Option.some.injEq] at h
+    subst h
+    dsimp only
+    have key : det.getD LineEnding.lf = .crlf ↔ det = some .crlf := by
+      cases det with
+      | none => simp
+      | some le => simp
+    rw [key, hd, detFold_none]
+    constructor
+    · rintro ⟨⟨e, he, hne⟩, hlf⟩
+      obtain ⟨x, hx, rfl⟩ := List.mem_map.mp he
+      exact ⟨⟨x, hx, hne⟩, fun y hy hc => hlf (List.mem_map.mpr ⟨y, hy, hc⟩)⟩
+    · rintro ⟨⟨x, hx, hne⟩, hall⟩
+      refine ⟨⟨x.2, List.mem_map.mpr ⟨x, hx, rfl⟩, hne⟩, ?_⟩
+      intro hm
+      obtain ⟨y, hy, hc⟩ := List.mem_map.mp hm
+      exact hall y hy hc
+
 /-! sanity (tests, labelled as such): the upstream block-quote example -/
 example : (unfill (fun _ => 1) "> foo\n> bar\n".toList).map (fun u => (String.ofList u.text, String.ofList u.initialIndent, String.ofList u.subsequentIndent, u.width)) =
     some ("foo bar\n", "> ", "> ", 5) := by decide
